@@ -33,6 +33,8 @@ def exec_job(job):
     # callers pass adjacency matrices of many types and layouts; the record keeps the values
     if job.get("dtype") in ("int", "int32", "uint8", "float32"):
         R0 = R0.astype({"int": int}.get(job["dtype"], job["dtype"]))
+    if job.get("dtype") == "bool" and np.isin(R0, (0, 1)).all():
+        R0 = R0.astype(bool)
     if job.get("layout") == "F":
         R0 = np.asfortranarray(R0)
     elif job.get("layout") == "view":
